@@ -409,16 +409,29 @@ pub fn mutate(rng: &mut Rng, corpus: &[(Kind, Vec<u8>)], thorough: bool) -> Inpu
             how = format!("prefix({}) + suffix of another payload from {}", i, j);
         }
         6 => {
-            // nesting bomb for Any: arrays of one element, depth up to the payload size
+            // nesting bomb for Any: arrays of one element, maps of one entry, or a mix of both,
+            // depth up to the payload size
             let depth = *rng.pick(&[64usize, 1024, 20_000, 60_000]);
-            let mut v = Vec::with_capacity(depth * 2 + 1);
+            let shape = rng.below(3);
+            let mut v = Vec::with_capacity(depth * 3 + 1);
             for _ in 0..depth {
-                v.push(117u8); // array
-                v.push(1u8); // of one element
+                let map = match shape {
+                    0 => false,
+                    1 => true,
+                    _ => rng.chance(50),
+                };
+                if map {
+                    v.push(118u8); // map
+                    v.push(1u8); // of one entry
+                    v.push(0u8); // with the empty key
+                } else {
+                    v.push(117u8); // array
+                    v.push(1u8); // of one element
+                }
             }
             v.push(126); // null
             b = v;
-            how = format!("nesting bomb depth {}", depth);
+            how = format!("nesting bomb depth {} ({})", depth, ["arrays", "maps", "arrays and maps"][shape as usize]);
             return Input {
                 entry: if rng.chance(70) { 8 } else { entries_for(*kind)[0] },
                 bytes: b,
@@ -427,14 +440,18 @@ pub fn mutate(rng: &mut Rng, corpus: &[(Kind, Vec<u8>)], thorough: bool) -> Inpu
         }
         7 => {
             let depth = *rng.pick(&[64usize, 1024, 20_000]);
+            let objects = rng.chance(50);
             let mut s = String::new();
             for _ in 0..depth {
-                s.push('[');
+                s.push_str(if objects { "{\"a\":" } else { "[" });
+            }
+            if objects {
+                s.push_str("null");
             }
             for _ in 0..depth {
-                s.push(']');
+                s.push(if objects { '}' } else { ']' });
             }
-            how = format!("json nesting bomb depth {}", depth);
+            how = format!("json nesting bomb depth {} ({})", depth, if objects { "objects" } else { "arrays" });
             return Input {
                 entry: if rng.chance(70) { 9 } else { 11 },
                 bytes: s.into_bytes(),
@@ -529,7 +546,7 @@ fn classify_single(inp: &Input) -> Option<Violation> {
             ENTRIES[inp.entry],
             inp.how,
             "untrusted input must yield a value or an error",
-            hex_full(&inp.bytes)
+            hex_cap(&inp.bytes)
         )
     };
     match out.status {
@@ -545,12 +562,19 @@ fn classify_single(inp: &Input) -> Option<Violation> {
     }
 }
 
+/// the whole input (replay files must hold all of it: a nesting bomb is several 100 kB)
 pub fn hex_full(b: &[u8]) -> String {
-    let mut s = String::new();
-    for x in b.iter().take(4096) {
+    let mut s = String::with_capacity(b.len() * 2);
+    for x in b.iter() {
         s.push_str(&format!("{:02x}", x));
     }
-    if b.len() > 4096 {
+    s
+}
+
+/// for messages
+pub fn hex_cap(b: &[u8]) -> String {
+    let mut s = hex_full(&b[..b.len().min(512)]);
+    if b.len() > 512 {
         s.push_str("..");
     }
     s
